@@ -54,9 +54,10 @@ func mk(op byte, fin bool, payload []byte, side Side, idx int) Frame {
 	f := Frame{H: refmodel.Hdr{Fin: fin, Op: op}, Payload: payload}
 	if side == Server {
 		f.H.Masked = true
-		// frames 0,1 share a key, frames 1,2 differ, frames 2,3 share the next one, ...: both a
-		// key that stays and a key that changes between consecutive frames occur in every stream
-		f.H.Mask = Masks[(idx/2)%len(Masks)]
+		// the key is a function of position, opcode and payload length: over the exhaustive set
+		// of streams every key (the all-zero one included) occurs on the first frame, and
+		// consecutive frames both share a key and change it
+		f.H.Mask = Masks[(idx/2+len(payload)+int(op))%len(Masks)]
 	}
 	f.H.Len = uint64(len(payload))
 	return f
